@@ -263,14 +263,31 @@ class Session:
         elif kind == 'EVAL_PY':
             rng = random.Random(a[0])
             g = eb.Gen(rng, [], allow_refs=False)
-            g.leaf = lambda: (['beta', rng.choice(eb.BETAS)] if rng.random() < 0.5 else
-                              ['num', rng.choice([0.5, 1.0, 2.0, -1.5, 3.0])])
+            row0 = self.rows[a[0] % len(self.rows)]
+
+            def constantify(n):
+                # a formula without variables: every variable replaced by its value on one row
+                if n[0] == 'var':
+                    return ['num', row0[n[1]]]
+                if n[0] == 'linutil':
+                    return ['multsum', [['*', ['beta', b_], ['num', row0[v_]]] for b_, v_ in n[1]]]
+                if n[0] == 'elem':
+                    return ['elem', {k_: constantify(v_) for k_, v_ in n[1].items()}, constantify(n[2])]
+                if n[0] == 'condsum':
+                    return ['condsum', [[constantify(c_), constantify(t_)] for c_, t_ in n[1]]]
+                if n[0] == 'multsum':
+                    return ['multsum', [constantify(t_) for t_ in n[1]]]
+                if n[0] in ('loglogit', 'logit'):
+                    return [n[0], {k_: constantify(v_) for k_, v_ in n[1].items()},
+                            None if n[2] is None else {k_: constantify(v_) for k_, v_ in n[2].items()}, constantify(n[3])]
+                if n[0] == 'in':
+                    return ['in', constantify(n[1]), n[2]]
+                if n[0] == 'powc':
+                    return ['powc', constantify(n[1]), n[2]]
+                return [n[0]] + [constantify(c_) if isinstance(c_, list) else c_ for c_ in n[1:]]
             ast = None
             for _ in range(20):
-                cand = g.small(2)
-                names = ref.collect(cand, [])
-                if names['var']:
-                    continue
+                cand = constantify(g.small(rng.randrange(1, 4)))
                 try:
                     w = ref.ev(cand, ref.Env({}, eb.BETA_VALUES))
                 except (ref.RefError, OverflowError, ZeroDivisionError, ValueError, KeyError):
